@@ -65,9 +65,11 @@ Proof.
   - destruct (cs_ph cs); try reflexivity. rewrite sweep_erase. destruct (negb _); [reflexivity|].
     destruct (_ <? _); reflexivity.
   - destruct (cs_ph cs); try reflexivity. destruct (forallb _ _); reflexivity.
-  - destruct (cs_ph cs) as [| | |todo tg|]; try reflexivity. destruct todo as [|p r]; [reflexivity|].
+  - unfold select_step. cbn [erase_cs with_s cs_s cs_ph cs_gstart cs_psnap cs_cands cs_ncand cs_sel cs_added1 cs_added2 cs_late cs_dph].
+    destruct (cs_ph cs) as [| | |todo tg|]; try reflexivity. destruct todo as [|p r]; [reflexivity|].
     destruct (tg <=? 0); [reflexivity|]. destruct (find _ _) as [e|]; [|reflexivity].
-    destruct (negb (ce_live e)); [reflexivity|]. rewrite peer_at_erase. cbn [erase_peer p_conns p_temp].
+    destruct (negb (ce_live e)); [reflexivity|]. rewrite peer_at_erase. cbn [erase_peer p_conns p_temp p_first].
+    destruct (true && (cs_gstart cs <? p_first (peer_at (cs_s cs) p))); [reflexivity|].
     destruct (is_nil (p_conns (peer_at (cs_s cs) p)) && p_temp (peer_at (cs_s cs) p)); [|reflexivity].
     unfold erase_cs, with_s. cbn [cs_s cs_ph cs_gstart cs_psnap cs_cands cs_ncand cs_sel cs_added1 cs_added2 cs_late cs_dph].
     rewrite erase_set_nopeer, <- erase_set_nopeer, relive_erase. reflexivity.
